@@ -87,19 +87,33 @@ def run(ctx):
                 ctx.ob('T2.tomb', f.fq, 'an item popped from the tail of item_list leaves the index map', ok, loc=loc(f, tailpop[0].node))
     # ---- add ------------------------------------------------------------------------
     add = prog.func(CLS + '.add')
-    w, paths = paths_of(prog, add, recv=ci)
     n = 0
-    for p in paths:
-        app = [o for o in p.ops if o.kind == 'call' and txt(o.val.func) == 'self.item_list.append']
-        st = [o for o in p.ops if o.kind == 'sub_store' and txt(o.val.value) == 'self.item_index_map']
-        if app or st:
-            n += 1
-            ts = tests_on(w, p)
-            guarded = any((t == 'item in self.item_index_map' and not truth) or
-                          (t == 'item not in self.item_index_map' and truth) for t, truth, o in ts)
-            ok = bool(app) and bool(st) and guarded and txt(w.expand(st[0].info)) == 'len(self.item_list)' and st[0].seq < app[0].seq \
-                and txt(st[0].val.slice) == txt(app[0].val.args[0])
-            ctx.ob('T2.add', add.fq, 'a new item gets map[item] = len(item_list) and is appended, only when not yet present', ok, loc=add.loc)
+    # every method that appends a slot (add, and any bulk operation that inlines it): per loop pass / per path segment
+    appenders = [m_ for m_ in ci.members.values() if isinstance(m_, FuncInfo) and any(
+        isinstance(x, ast.Call) and isinstance(x.func, ast.Attribute) and x.func.attr == 'append' and 'item_list' in txt(x.func.value)
+        for x in ast.walk(m_.node))]
+    if add not in appenders:
+        appenders.append(add)
+    for am in appenders:
+        w, paths = paths_of(prog, am, recv=ci)
+        for p in paths:
+            marks = [0] + [o.seq for o in p.ops if o.kind in ('loop_iter', 'iter_next')] + [10 ** 9]
+            for a_, b_ in zip(marks, marks[1:]):
+                seg = [o for o in p.ops if a_ <= o.seq < b_]
+                app = [o for o in seg if o.kind == 'call' and txt(o.val.func) == 'self.item_list.append']
+                st = [o for o in seg if o.kind == 'sub_store' and txt(o.val.value) == 'self.item_index_map']
+                if not (app or st):
+                    continue
+                n += 1
+                item = txt(app[0].val.args[0]) if app and app[0].val.args else (txt(st[0].val.slice) if st else 'item')
+                ts = [(t, truth) for t, truth, o in tests_on(w, p) if a_ <= o.seq < b_]
+                guarded = any((t == '%s in self.item_index_map' % item and not truth) or
+                              (t == '%s not in self.item_index_map' % item and truth) for t, truth in ts)
+                ok = bool(app) and bool(st) and guarded and txt(w.expand(st[0].info)) == 'len(self.item_list)' and st[0].seq < app[0].seq \
+                    and txt(st[0].val.slice) == txt(app[0].val.args[0])
+                ctx.ob('T2.add', am.fq, 'a new item gets map[item] = len(item_list) and is appended, only when not yet present', ok,
+                       loc=am.loc, detail='' if ok else 'slot recorded as `%s`' % (txt(w.expand(st[0].info)) if st else '-'),
+                       path=p.describe() if not ok else None)
     if n == 0:
         ctx.unknown('T2.add', add.fq, 'no append / map store found', add.loc)
     # ---- index spaces -----------------------------------------------------------------
